@@ -40,6 +40,7 @@ def configs(tier):
     q.append(('same name under interleaved parents / three branches', dict(fam_kw=dict(shape='three_branches', names=('x', 'y', 'item')))))
     q.append(('same name below same-named parents, optional text-only siblings / deep pair', dict(fam_kw=dict(shape='deep_pair', names=('x', 'd', 'a'), text_siblings=True))))
     q.append(('optional + repeated child whose name recurs elsewhere / rep_opt', dict(fam_kw=dict(shape='rep_opt', names=('b', 'c', 'd')))))
+    q.append(('optional + repeated child with keyword / hyphenated / prefixed names / rep_opt', dict(fam_kw=dict(shape='rep_opt', names=('type', 'line-item', 'p:b')))))
     q.append(('same name at many depths / deep', dict(fam_kw=dict(shape='deep', names=('a', 'b', 'r')))))
     q.append(('attributes vs children vs text / attrs', dict(fam_kw=dict(shape='attrs', names=('text', 'a', 'type', 'text_attr')))))
     if tier == 'quick': return q
@@ -61,7 +62,7 @@ def main():
     ]
     if c.setup():
         for label, kw in configs(c.tier):
-            c.run(label, 'rsym.hn', 'LegalNames', kw, required_witnesses=('rendered',), time_cap=150 if c.tier == 'quick' else 900)
+            c.run(label, 'rsym.hn', 'LegalNames', kw, required_witnesses=('rendered',), time_cap=600 if c.tier == 'quick' else 900)
         # every listed finding must still reproduce natively (else the entry is stale)
         from rsym.outreader import read_output
         from rsym.hn import c04_clauses
